@@ -49,7 +49,15 @@ class ToGFA1:
       gfapy.error.ValueError: If the edge is internal
     """
     self._check_not_internal("overlap")
-    return self.alignment.complement() if self._is_sid1_from() else self.alignment
+    if self._is_sid1_from() or not isinstance(self.alignment, gfapy.CIGAR):
+      return self.alignment
+    # sid2 is the from segment of the link/containment: reference and query
+    # exchange their roles (insertions become deletions and vice versa), the
+    # orientations and therefore the direction of the alignment stay the same
+    swapped = {"I": "D", "D": "I"}
+    return gfapy.CIGAR([gfapy.CIGAR.Operation(op.length,
+                                              swapped.get(op.code, op.code))
+                        for op in self.alignment])
 
   @property
   def oriented_from(self):
